@@ -243,6 +243,12 @@ var c19rec *recorder
 var c19InnerAt int
 
 func checkC19(c C19Case) Verdict {
+	if c.Kind == "numbered" {
+		if err := c19Numbered(); err != nil {
+			return bad(true, "%v", err)
+		}
+		return ok(true, "numbered")
+	}
 	if c.Kind == "parse" {
 		valid, _ := c.file(c.Lines)
 		if _, err := parse.SoyFile(c.Name, valid); err != nil {
@@ -567,5 +573,12 @@ func genC19(t *rapid.T) C19Case {
 func TestC19(t *testing.T) {
 	c19rec = newRecorder("C19x")
 	defer c19rec.flush()
+	if shard() == "0" && os.Getenv("VERIF_REPLAY") == "" && os.Getenv("VERIF_CORPUS_ONLY") == "" {
+		if err := c19Numbered(); err != nil {
+			c := C19Case{Kind: "numbered"}
+			writeFail("C19", c, err)
+			t.Fatalf("numbered tier: %v", err)
+		}
+	}
 	runProp(t, "C19", genC19, checkC19)
 }
